@@ -117,7 +117,6 @@ def _launcher(ctx: Ctx) -> None:
                 others |= cfg.done(o[0])
         if cfg.reach({t for (_u, t) in d[3]}, others) & sp_att:
             deciding.append(d)
-    some(deciding, "probe decision whose failure leads to the spawn", la)
     for i, d in enumerate(deciding):
         ctx.check(lock in ls.held(d[1]), "RF-LOCK", f"launch:deciding-probe-under-filelock:{i}", la, d[1],
                   ok="the probe whose failure leads to the spawn runs between lock.acquire() and lock.release()",
@@ -148,7 +147,7 @@ def _launcher(ctx: Ctx) -> None:
         dec_fail_edges |= d[3]
     via_ok = cfg.reach({t for (_u, t) in all_ok_edges}) & sp_att
     not_via_probe = cfg.reach({cfg.entry}, avoid_edges=dec_fail_edges) & sp_att
-    ctx.check(not via_ok and not not_via_probe, "RF-DOM", "launch:spawn-only-after-failed-probe", la, spawns[0],
+    ctx.check(bool(deciding) and not via_ok and not not_via_probe, "RF-DOM", "launch:spawn-only-after-failed-probe", la, spawns[0],
               ok="the spawn is reachable only through the failure edge of a probe made inside the lock",
               bad="a worker can be spawned although a probe found one alive (or without probing under the lock): a second worker for the same command hash")
     # every returned path follows a successful probe or a completed spawn
@@ -433,13 +432,10 @@ def _threaded(ctx: Ctx) -> None:
         if not on_timeout:
             ctx.hold("RF-DOM", f"loop-exit:{i}:listener-error", outer, b, "exit on a non-timeout OSError of accept() (listener closed / broken)")
             continue
-        flag_ifs = [g for g in enclosing(ocfg, b, (ast.If,)) if FLAG in {x.id for x in ast.walk(g.test) if isinstance(x, ast.Name)}]  # type: ignore[attr-defined]
-        okb = False
-        if flag_ifs:
-            g = flag_ifs[0]
-            av = edges_under(ocfg, outer.node, {FLAG: False}, only=[g])
-            start_nodes = ocfg.attempt(h.body[0])
-            okb = not (ocfg.reach(start_nodes, avoid_edges=av) & ocfg.attempt(b)) and LOCK in ols.held(g.test)  # type: ignore[attr-defined]
+        h_ifs = [g for st in h.body for g in walk_scope(st) if isinstance(g, (ast.If, ast.While))] + [st for st in h.body if isinstance(st, (ast.If, ast.While))]
+        av = edges_under(ocfg, outer.node, {FLAG: False}, only=h_ifs)
+        start_nodes = ocfg.attempt(h.body[0])
+        okb = not (ocfg.reach(start_nodes, avoid_edges=av) & ocfg.done(b))  # a Break has only a done node
         ctx.check(okb, "RF-DOM", f"loop-exit:{i}:timeout-only-under-flag", outer, b,
                   ok="an accept timeout ends the loop only when the shutdown flag is set (read under the state lock)",
                   bad="an accept timeout can end the loop without the idle-shutdown flag: the worker stops accepting although idle_timeout has not elapsed")
